@@ -89,6 +89,8 @@ def worker(pid, tier, seed, shard, nshards, outpath):
             except BaseException:
                 res = {"harness_error": traceback.format_exc()}
             res["i"] = i
+            if res.get("viol") or res.get("inconclusive"):
+                res["case"] = case     # run_case stores the expanded configuration in the case: replays do not depend on generators
             res["wall"] = round(time.time() - t0, 3)
             out.write(json.dumps(engine.jsonable(res)) + "\n")
             out.flush()
@@ -199,6 +201,8 @@ def main(argv):
         for v in r.get("viol", []):
             v["case_i"] = r["i"]
             viols.append(v)
+        if r.get("case") is not None:
+            cases[r["i"]] = r["case"]
         for m in r.get("inconclusive", []):
             inconcl.append("case %d: %s" % (r["i"], m))
         if r.get("harness_error"):
